@@ -135,8 +135,8 @@ func init() {
 				for oi, op := range []string{"out-text", "walk", "verify", "out-dry", "mkdir"} {
 					sc := c12Scenario(op, doc, 0)
 					pols := []int{0, 1, 2}
-					if oi >= 3 || (L == maxB && oi >= 1) {
-						pols = pols[:1]
+					if (oi >= 3 && !(op == "mkdir" && L <= 3)) || (L == maxB && oi >= 1) {
+						pols = pols[:1] // (mkdir keeps all base schedules on the shorter sequences: its workers share state)
 					}
 					for _, pol := range pols {
 						e.explore(sc, pol)
